@@ -492,7 +492,7 @@ class TaskDispatcher(object):
         will be ignored unless it is an error, the second from the
         SendTaskSuccess/SendTaskFailure API calls.
         """
-        if request_has_waitForTaskToken and error_type == None:
+        if request_has_waitForTaskToken and not error_type:
             message.acknowledge(multiple=False)
             return
 
